@@ -711,6 +711,13 @@ pub fn gen_msg(rng: &mut Rng, hist: &mut Hist, pool: &[PoolRec], bad_ok: bool, t
     let mut id = gen_id(rng, hist);
     if bad_ok && rng.chance(1, 12) {
         id = rbytes(rng, 9, 12);
+        // half of them begin with zero bytes (ids are byte strings, not integers: the zeros count)
+        if rng.chance(1, 2) {
+            let z = rng.range(1, id.len() as u64 - 1) as usize;
+            for b in id.iter_mut().take(z) {
+                *b = 0;
+            }
+        }
         hist.add("id_len:9+");
         expect = Expect::Reject("request id longer than 8 bytes");
     }
@@ -849,7 +856,14 @@ pub fn mutate(rng: &mut Rng, w: &mut Wire, pool: &[PoolRec]) -> (&'static str, E
             }
         }
         8 => {
-            w.fields[0] = s(&rbytes(rng, 9, 14));
+            let mut long_id = rbytes(rng, 9, 14);
+            if rng.chance(1, 2) {
+                let z = rng.range(1, long_id.len() as u64 - 1) as usize;
+                for b in long_id.iter_mut().take(z) {
+                    *b = 0;
+                }
+            }
+            w.fields[0] = s(&long_id);
             ("id-9-bytes", Expect::Reject("request id longer than 8 bytes"))
         }
         9 => {
